@@ -148,6 +148,18 @@ theorem deser_ser_repaired (crc : Bytes → Nat) (magic ver : Bytes) (cm : CM)
     deserializeSw true crc magic ver (serialize crc magic ver cm) = .ok cm := by
   simpa [deserializeSw] using Entry.deser_ser_fixed crc magic ver cm hwf hv
 
+/-- The entry codec is injective on well-formed modules: two modules with the same entry bytes are the same module,
+for every checksum function (corollary of `deser_ser_repaired`: a reader that inverts the writer exists). So one
+cache entry never stands for two different pieces of code, whatever the checksum collides on. -/
+theorem serialize_injective (crc : Bytes → Nat) (magic ver : Bytes) (cm cm' : CM)
+    (hwf : cm.WF) (hwf' : cm'.WF) (hv : ver.length < 256)
+    (h : serialize crc magic ver cm = serialize crc magic ver cm') : cm = cm' := by
+  have r1 := deser_ser_repaired crc magic ver cm hwf hv
+  have r2 := deser_ser_repaired crc magic ver cm' hwf' hv
+  rw [h, r2] at r1
+  injection r1 with r1
+  exact r1.symm
+
 /-- `other_version_stale`: an entry written by ANOTHER version (of length < 256) is stale — or, when the whole entry
 is shorter than this version's header, an error — never accepted. -/
 theorem other_version_stale (crc : Bytes → Nat) (magic ver ver' : Bytes) (cm : CM)
